@@ -21,6 +21,8 @@ Conventions
   of the received header; all version dependent layouts use `proto`, as the code does.
 * not modelled: Go's stack limit for deeply nested type descriptors (fuel = buffer length is never
   exhausted, see `readTypeInfo`), memory exhaustion of `make([]int, pkeyCount)` for a huge positive count.
+* readTypeInfo is the code AFTER the repair of KF-C04-1 (a custom class that names a bare collection /
+  tuple marshal class stays a custom type).
 Core Lean only (compiled into the native driver).
 -/
 namespace FrameRead
